@@ -145,7 +145,7 @@ fn pass0_internal(
                                     t: segment.t,
                                     items: vec![],
                                 });
-                                pass0_internal(segments[0].clone(), context, macroses, depth + 1)?;
+                                pass0_internal(segment.clone(), context, macroses, depth + 1)?;
                             } else {
                                 context.add_segment(segment.clone());
                             }
